@@ -20,6 +20,7 @@ import (
 	dagpb "github.com/ipld/go-codec-dagpb"
 	"github.com/ipld/go-ipld-prime"
 	"github.com/ipld/go-ipld-prime/datamodel"
+	"github.com/ipld/go-ipld-prime/fluent/qp"
 	cidlink "github.com/ipld/go-ipld-prime/linking/cid"
 	"github.com/ipld/go-ipld-prime/node/basicnode"
 	"github.com/multiformats/go-multihash"
@@ -57,6 +58,7 @@ type HamtInput struct {
 	History []HOp    `json:"history,omitempty"` // applied to a boxo shard (mode ref)
 	Probes  []string `json:"probes,omitempty"`  // non-member keys to look up
 	Faults  [][2]int `json:"faults,omitempty"`
+	Hostile *HShard `json:"hostile,omitempty"`
 	// hashbits
 	Hash  []byte `json:"hash,omitempty"`
 	Off   int    `json:"off,omitempty"`
@@ -114,7 +116,19 @@ func coarseErr(o Outcome) string {
 
 // readShard exercises a reified sharded directory: lookups (members and probes), iteration, length.
 // expected maps name -> target id (the reference's entry set).
-func readShard(rep *Report, in HamtInput, st *Store, root cid.Cid, expected map[string]int, probes []string, fail func(prop, sig, what string, exp, got interface{})) *hamtObs {
+func readShard(rep *Report, in HamtInput, st *Store, root cid.Cid, expected map[string]int, probes []string, failAll func(prop, sig, what string, exp, got interface{})) *hamtObs {
+	fail := failAll
+	if in.Mode == "hostile" {
+		// arbitrary blocks are not a map: only panics and non-termination count
+		fail = func(prop, sig, what string, exp, got interface{}) {
+			if prop == "C13" || sig == "iter-nonterminating" {
+				if prop != "C13" {
+					prop = "C13"
+				}
+				failAll(prop, sig, what, exp, got)
+			}
+		}
+	}
 	dag := dumpDAG(st, root, map[string]*DNode{})
 	var order []*DNode
 	preorder(dag, &order)
@@ -393,7 +407,9 @@ func readShard(rep *Report, in HamtInput, st *Store, root cid.Cid, expected map[
 		if o.Class == "panic" {
 			fail("C13", "length-panic", "Length panicked", "a number", "panic")
 		} else {
-			if !faulty {
+			if in.Mode == "hostile" {
+				obs.length = "None" // Length() folds every error into 0: nothing to compare
+			} else if !faulty {
 				if n != int64(len(expected)) {
 					fail("C02", "length", "Length is not the entry count", len(expected), n)
 				}
@@ -637,6 +653,33 @@ func runHamtInput(rep *Report, in HamtInput, cf *CaseFile) {
 			}
 			cf.Add(fmt.Sprintf("mk_hamt %s (Some (%d, %d)) %s %s %s %s", src, dag.FP(), size, coqList(fl), lk, it, ln), in)
 		}
+	case "hostile":
+		st := NewStore()
+		root := buildHostile(st, in.Hostile)
+		dag := dumpDAG(st, root, map[string]*DNode{})
+		n, ls, err := loadRoot(st, root)
+		must(err)
+		var rerr error
+		var rnode datamodel.Node
+		o := guard(func() error {
+			rnode, rerr = unixfsnode.Reify(ipld.LinkContext{Ctx: context.Background()}, n, ls)
+			return nil
+		})
+		if o.Class == "panic" {
+			fail("C13", "reify-panic", "Reify of a hostile shard panicked", "node or error", "panic")
+			return
+		}
+		if _, isShard := rnode.(hamt.UnixFSHAMTShard); rerr != nil || !isShard {
+			// not a sharded directory (other kinds are exercised by the reify and files scenarios)
+			if cf != nil {
+				cf.Add(fmt.Sprintf("mk_hamt (HDump %s) None [] [] None None", coqBlk(dag)), in)
+			}
+			return
+		}
+		obs := readShard(rep, in, st, root, map[string]int{}, in.Probes, fail)
+		if cf != nil && obs != nil {
+			cf.Add(fmt.Sprintf("mk_hamt (HDump %s) None [] %s %s %s", coqBlk(dag), coqList(obs.lookups), obs.iter, obs.length), in)
+		}
 	case "ref":
 		// a boxo shard driven through an insert/remove history, then read by the library
 		st := NewStore()
@@ -691,8 +734,9 @@ var _ = merkledag.NodeWithData
 func scnHamt(rep *Report, rng *Rng, tier string, outdir string) {
 	cfH := NewCaseFile(rep, outdir, "cases_hashbits", "UV.Corr.Hamt", "mismatches_hashbits", 1500)
 	cf := NewCaseFile(rep, outdir, "cases_hamt", "UV.Corr.Hamt", "mismatches_hamt", 12)
+	cfHost := NewCaseFile(rep, outdir, "cases_hostile", "UV.Corr.Hamt", "mismatches_hamt", 40)
 	if tier == "search" {
-		cf = nil
+		cf, cfHost = nil, nil
 	}
 	props := []string{"C02", "C08", "C10", "C11", "C15", "C05", "C06", "C12", "C13", "C20"}
 	rule := "entry sets (0..300 names: plain, unicode, spaces, hex-looking prefixes, names equal to a prefix+name of another, murmur3-colliding groups sharing up to 40 leading hash bits) x fanouts 8..1024 x {sharded, auto, boxo-written after insert/remove histories}; each DAG compared with the Coq builder model (fingerprint+size) and boxo (CID+size), read through Reify (lookups of members and perturbed non-members via 4 entry points, full iteration, Length, preload) with every reply and shard request compared with the Coq reader model; missing-shard sets; distinct = distinct (mode, fanout, entry set, faults); non-trivial = at least 2 entries"
@@ -875,6 +919,20 @@ func scnHamt(rep *Report, rng *Rng, tier string, outdir string) {
 			add(HamtInput{Mode: "auto", Entries: mkEntries(ns), Probes: []string{"nope"}})
 		}
 	}
+	// hostile shards
+	nHost := 150
+	if tier == "thorough" {
+		nHost = 5000
+	} else if tier == "search" {
+		nHost = 1500
+	}
+	for i := 0; i < nHost; i++ {
+		in := HamtInput{Mode: "hostile", Hostile: genHostile(rng, 3), Probes: []string{"a", "name", "", "x", "zz", "entry-1"}}
+		runHamtInput(rep, in, cfHost)
+		key, _ := json.Marshal(in)
+		rep.Count("C13", string(key), len(in.Hostile.Links) > 0, in)
+		rep.Dist("C13", "hostile-shard")
+	}
 	// reference-written shards after insert/remove histories
 	nHist := 10
 	if tier == "thorough" {
@@ -903,6 +961,7 @@ func scnHamt(rep *Report, rng *Rng, tier string, outdir string) {
 	}
 	if cf != nil {
 		cf.Flush()
+		cfHost.Flush()
 	}
 }
 
@@ -927,4 +986,130 @@ func shortInput(in HamtInput) interface{} {
 		s.Probes = s.Probes[:4]
 	}
 	return s
+}
+
+// ---- hostile shards: valid dag-pb whose UnixFS fields are adversarial ----
+type HLink struct {
+	Name    *string `json:"name"`
+	Child   *HShard `json:"child,omitempty"` // nil: an entry target
+	Raw     bool    `json:"raw,omitempty"`   // the target is a raw block
+	Missing bool    `json:"missing,omitempty"`
+}
+type HShard struct {
+	Type     int64   `json:"type"`
+	Fanout   *uint64 `json:"fanout"`
+	HashType *uint64 `json:"hashtype"`
+	Bits     []byte  `json:"bits"`
+	HasBits  bool    `json:"hasbits"`
+	Garbage  bool    `json:"garbage,omitempty"` // undecodable Data
+	NoData   bool    `json:"nodata,omitempty"`
+	Links    []HLink `json:"links"`
+}
+
+func buildHostile(st *Store, h *HShard) cid.Cid {
+	n, err := qp.BuildMap(dagpb.Type.PBNode, -1, func(ma datamodel.MapAssembler) {
+		qp.MapEntry(ma, "Links", qp.List(int64(len(h.Links)), func(la datamodel.ListAssembler) {
+			for i, l := range h.Links {
+				l := l
+				var c cid.Cid
+				switch {
+				case l.Child != nil:
+					c = buildHostile(st, l.Child)
+				case l.Raw:
+					c = st.PutRaw([]byte(fmt.Sprintf("raw-%d", i)))
+				default:
+					e := HEntry{ID: 100 + i}
+					c = entryCid(e)
+					registerExt(c, uint64(e.ID))
+				}
+				if l.Missing {
+					delete(st.Blocks, c.KeyString())
+					registerExt(c, uint64(200+i))
+				}
+				qp.ListEntry(la, qp.Map(-1, func(ma datamodel.MapAssembler) {
+					qp.MapEntry(ma, "Hash", qp.Link(cidlink.Link{Cid: c}))
+					if l.Name != nil {
+						qp.MapEntry(ma, "Name", qp.String(*l.Name))
+					}
+					qp.MapEntry(ma, "Tsize", qp.Int(int64(10+i)))
+				}))
+			}
+		}))
+		switch {
+		case h.NoData:
+		case h.Garbage:
+			qp.MapEntry(ma, "Data", qp.Bytes([]byte{0xff, 0x01}))
+		default:
+			qp.MapEntry(ma, "Data", qp.Bytes(ufsData(h.Type, h.Bits, h.HasBits, nil, nil, h.HashType, h.Fanout)))
+		}
+	})
+	must(err)
+	c, err := st.PutPB(n, false)
+	must(err)
+	return c
+}
+
+func genHostile(rng *Rng, depth int) *HShard {
+	u := func(v uint64) *uint64 { return &v }
+	fan := []uint64{8, 8, 16, 16, 256}[rng.Intn(5)]
+	h := &HShard{Type: 5, Fanout: u(fan), HashType: u(0x22), HasBits: true}
+	nbytes := int(fan / 8)
+	h.Bits = rng.Bytes(nbytes)
+	switch rng.Intn(14) {
+	case 0:
+		h.Bits = rng.Bytes(nbytes + 1 + rng.Intn(3)) // too long
+	case 1:
+		h.Bits = rng.Bytes(rng.Intn(nbytes + 1)) // short
+	case 2:
+		h.Fanout = u([]uint64{0, 1, 4, 12, 24, 2048, 1 << 63, 1<<64 - 1}[rng.Intn(8)])
+	case 3:
+		h.HashType = u(0x12)
+	case 4:
+		h.HashType = nil
+	case 5:
+		h.HasBits = false
+	case 6:
+		h.Type = int64(rng.Intn(5))
+	case 7:
+		h.Garbage = true
+	case 8:
+		h.NoData = true
+	case 9:
+		for i := range h.Bits {
+			h.Bits[i] = 0xff
+		}
+	}
+	pad := len(fmt.Sprintf("%X", fan-1))
+	nl := rng.Intn(7)
+	for i := 0; i < nl; i++ {
+		var l HLink
+		prefix := fmt.Sprintf("%0*X", pad, rng.Intn(int(fan)))
+		switch rng.Intn(9) {
+		case 0: // absent name
+		case 1:
+			s := prefix[:rng.Intn(pad)] // shorter than the prefix
+			l.Name = &s
+		case 2, 3:
+			if depth > 0 {
+				l.Child = genHostile(rng, depth-1)
+				if rng.Intn(3) == 0 && *l.Child.Fanout == fan {
+					// a child with a different (smaller or larger) fanout
+					l.Child.Fanout = u([]uint64{8, 16, 256, 1024}[rng.Intn(4)])
+					l.Child.Bits = rng.Bytes(int(*l.Child.Fanout / 8))
+				}
+			}
+			l.Name = &prefix
+		case 4:
+			l.Name = &prefix
+			l.Raw = true // a "child shard" that is a raw block
+		case 5:
+			l.Name = &prefix
+			l.Missing = true
+		default:
+			s := prefix + rng.Pick([]string{"a", "name", "", "x"})
+			l.Name = &s
+		}
+		h.Links = append(h.Links, l)
+	}
+	return h
 }
